@@ -481,6 +481,42 @@ var mutators = map[string]func(d *docInfo, a, b int) bool{
 		if !ok {
 			return false
 		}
+		// interface form (seeded change C04-n1): the selection on the interface itself conflicts
+		// with the selection inside the fragment on one implementer, after an equal selection
+		// in a fragment on another implementer: '... on A { cf: p } ... on B { cf: g } cf: p'
+		if pd := d.schema.Types[s.typ]; pd != nil && pd.Kind == ast.Interface && len(objs) >= 2 && b%3 == 2 {
+			ileafs, _ := leafsOf(pd)
+			tleafs, _ := leafsOf(target)
+			if len(ileafs) > 0 && len(tleafs) >= 2 {
+				p := ileafs[(a/3)%len(ileafs)]
+				var g *ast.FieldDefinition
+				for _, f := range tleafs {
+					if f.Name != p.Name {
+						g = f
+						break
+					}
+				}
+				var other *ast.Definition
+				for _, o := range objs {
+					if o != target && o.Fields.ForName(p.Name) != nil {
+						other = o
+						break
+					}
+				}
+				if g != nil && other != nil {
+					sel := []ast.Selection{
+						&ast.InlineFragment{TypeCondition: other.Name, SelectionSet: ast.SelectionSet{&ast.Field{Alias: "cf", Name: p.Name}}},
+						&ast.InlineFragment{TypeCondition: target.Name, SelectionSet: ast.SelectionSet{&ast.Field{Alias: "cf", Name: g.Name}}},
+						&ast.Field{Alias: "cf", Name: p.Name},
+					}
+					if a%2 == 1 {
+						sel[0], sel[2] = sel[2], sel[0]
+					}
+					*s.set = append(*s.set, sel...)
+					return true
+				}
+			}
+		}
 		leafs, withArgs := leafsOf(target)
 		var one, two *ast.Field
 		if b%4 == 3 && len(withArgs) > 0 {
